@@ -176,6 +176,29 @@ Definition all_demanded (p : plat) (meth site : string) (c : cond) : option res 
   | None => contract p meth site c
   end.
 
+(* double fault: the method's call fails with e1 and the error path's follow-up probes fail with e2.  The listing
+   cannot be read then, so the property fixes a SET of acceptable outcomes:
+     - a no-such-process or permission failure (e1) must still end as a psutil exception, never as a bare OSError;
+       either failure may be the one that is translated;
+     - another e1 may pass through (as e1, or as the probe's error), or become AccessDenied under the PID-0 rule;
+     - the documented fall-backs of the method (for some state of the process) remain acceptable. *)
+Definition translations (p : plat) (meth site : string) (e : err) : list res :=
+  if nosuch_failure p meth site e then (if has_zombies p then [RNoSuch; RZombie] else [RNoSuch])
+  else if perm_failure e then [RDenied] else [].
+Definition probe_allowed (p : plat) (meth site : string) (e1 e2 : err) (z : bool) : list res :=
+  translations p meth site e1 ++ translations p meth site e2
+  ++ (if nosuch_failure p meth site e1 || perm_failure e1 then []
+      else [RRaw; RRawProbe] ++ (if pid0_rule p && z then [RDenied] else []))
+  ++ flat_map (fun s => match recovery p meth site (Build_cond e1 s z) with Some r => [r] | None => [] end) [Alive; Zombie; Gone].
+(* finding: Solaris asks _psposix.pid_exists() -> os.kill(pid, 0), which absorbs ESRCH and EPERM only; any other
+   error of that probe leaves wrap_exceptions bare although the method's own failure was "no such process" *)
+Definition is_other_or_notfound (e : err) : bool := match pycls_of e with CLookup | CPerm => false | _ => true end.
+Definition known_probe_raw (p : plat) (meth site : string) (e1 e2 : err) (z : bool) : bool :=
+  match p with SunOS => negb z && nosuch_failure p meth site e1 && is_other_or_notfound e2 | _ => false end.
+Definition probe_conds (p : plat) : list (err * err * bool) :=
+  let es := filter (err_ok p) [ESRCH; ENOENT; EPERM; EACCES; EIO; EINVAL; WACCESS; WPRIV; WPARTIAL; WINVAL] in
+  flat_map (fun e1 => flat_map (fun e2 => map (fun z => (e1, e2, z)) [false; true]) es) es.
+
 (* ERROR_PARTIAL_COPY k times, then success or another error: 33 attempts, then AccessDenied *)
 Definition retry_demanded (meth site : string) (k : Z) (then_ : option err) (s : pstate) (z : bool) : option res :=
   if g_win_partial meth then
